@@ -188,11 +188,13 @@ Fixpoint scan (items : list item) (s : list sym) : option (list rawfield) :=
 Definition ws_class (c : N) : N :=
   if c =? 32 then 1 else if c =? 9 then 2 else if (c =? 10) || (c =? 13) then 3 else 0.
 
+Definition sym_ws_class (x : sym) : N := match x with Dg _ => 0 | Ch c => ws_class c end.
+
+(* [l]: the ws_class of each character *)
 Fixpoint lead_counts (l : list N) (sc tc ec : N) : (N * N * N) * bool :=
   match l with
   | [] => ((sc, tc, ec), false)
-  | c :: r =>
-    let k := ws_class c in
+  | k :: r =>
     if k =? 1 then lead_counts r (sc + 1) tc ec
     else if k =? 2 then lead_counts r sc (tc + 1) ec
     else if k =? 3 then lead_counts r sc tc (ec + 1)
@@ -202,7 +204,8 @@ Fixpoint lead_counts (l : list N) (sc tc ec : N) : (N * N * N) * bool :=
 Definition eq3 (a b : N * N * N) : bool :=
   let '(a1, a2, a3) := a in let '(b1, b2, b3) := b in (a1 =? b1) && (a2 =? b2) && (a3 =? b3).
 
-Definition issue660_ok (v p : bytes) : bool :=
+(* [v], [p]: ws_class of each character of value and pattern *)
+Definition issue660_ok (v p : list N) : bool :=
   let '(cv, vb) := lead_counts v 0 0 0 in
   let '(cp, pb) := lead_counts p 0 0 0 in
   if negb (eq3 cv cp) then false
@@ -392,7 +395,7 @@ Section Tables.
     match prepare_row rw arg with
     | None => None
     | Some (dts, pat) =>
-      if issue660_ok (map sym_byte dts) pat then scan (tokenize pat) dts else None
+      if issue660_ok (map sym_ws_class dts) (map ws_class pat) then scan (tokenize pat) dts else None
     end.
 
   (* the pattern finally handed to the parser (after the %Z rewriting and the append) *)
@@ -598,7 +601,7 @@ Section Tables.
     | Some v =>
       let data := classify (tz_probe_prefix ++ v)%list in
       first_some (fun pat =>
-                    if issue660_ok (map sym_byte data) pat then
+                    if issue660_ok (map sym_ws_class data) (map ws_class pat) then
                       match scan (tokenize pat) data with
                       | Some fs =>
                         match validate true 0 fs with
